@@ -18,6 +18,16 @@ pub fn build(route: &str, cfg: &ObjectTransmissionInformation, data: &[u8], k: u
         "sd" => SourceBlockEncoder::verif_new_with(0, &cfg, &data, 0, false),
         "dp" => SourceBlockEncoder::verif_new_with(0, &cfg, &data, u32::MAX, true),
         "sp" => SourceBlockEncoder::verif_new_with(0, &cfg, &data, 0, true),
+        // the block as the SECOND block of a two-block object built by Encoder::new (first block: k+1 symbols, so that the
+        // two blocks have different K' whenever k is a Table 2 value): plans shared between the blocks of an object
+        "obj" => {
+            let t = cfg.symbol_size() as usize;
+            let mut obj: Vec<u8> = (0..(k + 1) * t).map(|i| (i * 37 + 11) as u8).collect();
+            obj.extend_from_slice(&data);
+            let oti = ObjectTransmissionInformation::new(obj.len() as u64, t as u16, 2, 1, 1);
+            let e = raptorq::Encoder::new(&obj, oti);
+            Some(e.get_block_encoders()[1].clone())
+        }
         other => panic!("unknown route {other}"),
     })
 }
@@ -50,7 +60,7 @@ pub fn run(o: &Opts) {
         let data = pattern_data(seed, k, t);
         let cfg = ObjectTransmissionInformation::new(0, t as u16, 0, 1, 1);
         let enc = build(route, &cfg, &data, k);
-        let mut ev = json!({"ev":"block","k":k,"t":t,"route":route,"mode":mode});
+        let mut ev = json!({"ev":"block","k":k,"t":t,"route":route,"mode":mode,"sbn": if route == "obj" { 1 } else { 0 }});
         match enc {
             Err(msg) => {
                 ev["res"] = json!("panic");
